@@ -568,15 +568,28 @@ fn gen_case(family: &str, rng: &mut Rng, k: u64) -> Case {
             let nn = 1 + (k % 3) as usize;
             let alpha = [b'a', b'b', 0u8, 0x80, 0xff, b'c', 0x7f, b'\n', b'/'];
             let n: Vec<u8> = (0..nn).map(|_| alpha[rng.below(alpha.len())]).collect();
-            let len = match k % 5 {
+            // every 16th case is long (2000..9000 bytes) and dense in needle bytes: per-lane / narrow accumulators of
+            // counting loops, block-wise reductions and unrolled loops with many iterations only show there
+            let long = k % 16 == 7;
+            let len = if long { 2000 + rng.below(7000) } else { match k % 5 {
                 0 => rng.below(40),
                 1 => 60 + rng.below(80),
                 2 => 120 + rng.below(200),
                 3 => 250 + rng.below(300),
                 _ => rng.below(600),
-            };
+            } };
             let fill = b'.';
             let mut h = vec![fill; len];
+            if long {
+                let holes = if k % 32 == 7 { 0 } else { 1 + rng.below(64) };
+                for x in h.iter_mut() {
+                    *x = n[0];
+                }
+                for _ in 0..holes {
+                    let p = rng.below(len);
+                    h[p] = fill;
+                }
+            }
             // sparse or dense needles at interesting places
             let hits = match k % 4 { 0 => 0, 1 => 1, 2 => 2, _ => rng.below(8) };
             for _ in 0..hits {
